@@ -19,7 +19,7 @@ NEEDS = {
 def main():
     merged = {}
     for d in sys.argv[1:]:
-        for f in sorted(glob.glob(os.path.join(d, "S-*.json"))):
+        for f in sorted(glob.glob(os.path.join(d, "S*-C*.json"))):
             try:
                 r = json.load(open(f))
             except Exception:
@@ -66,7 +66,9 @@ def main():
                 "Each sub-agent saw only the text of one property and a scratch worktree of the library.  Every change passes the 150 "
                 "pinned tests; its `demo.py` passes on the unchanged library and fails with the change (confirmed by "
                 "`tools/eval_seed.py`).  `caught by` lists the quick checks that exit 1 with a VIOLATION line on the changed tree; "
-                "`silent` the other checks that were run against it.\n\n"
+                "`silent` the other checks that were run against it (runs of the non-target checks may predate later strengthening of those checks; "
+                "the target check of every seed was re-run with the final machinery).  `S-` = first wave, `S2-` = second wave, whose authors "
+                "were also told which ideas had been used already.\n\n"
                 "| seed | target | change | caught by | silent (of those run) |\n|---|---|---|---|---|\n")
         for seed, target, first_line, caught, silent, ok in rows:
             mark = "" if target in caught else " **(target check silent)**"
